@@ -100,6 +100,19 @@ Meta ==
    Nd(<<"-">>, "d"), Nd(<<"-", "*">>, "f"), Nd(<<"-", ".b">>, "f"), Nd(<<"!">>, "f"), Nd(<<"]">>, "f"),
    Nd(<<"a">>, "d"), Nd(<<"a", "b">>, "d"), Nd(<<"a", "b", "ab">>, "f")}
 
+\* Directory names one of which is a proper prefix of another, the next
+\* character sorting below "/" ("-" 45, "." 46, "*" 42 < "/" 47): here the
+\* order of whole pathname strings ("a-/b" < "a/b") differs from an order
+\* taken component by component ("a" < "a-").
+Prefixes ==
+  {Nd(<<"a">>, "d"), Nd(<<"a", "a">>, "f"), Nd(<<"a", "b">>, "f"),
+   Nd(<<"a-">>, "d"), Nd(<<"a-", "a">>, "f"), Nd(<<"a-", "b">>, "f"),
+   Nd(<<"a.d">>, "d"), Nd(<<"a.d", "a">>, "f"), Nd(<<"a.d", "b">>, "f"),
+   Nd(<<"a*">>, "d"), Nd(<<"a*", "a">>, "f"),
+   Nd(<<"ab">>, "d"), Nd(<<"ab", "a">>, "f"),
+   Nd(<<"sub">>, "d"), Nd(<<"sub", "a">>, "d"), Nd(<<"sub", "a", "b">>, "f"),
+   Nd(<<"sub", "a.">>, "d"), Nd(<<"sub", "a.", "b">>, "f"), Nd(<<"a+">>, "d"), Nd(<<"a+", "b">>, "f")}
+
 \* [cwd, nodes]
 Rich == <<
   [cwd |-> <<Scope>>, S |-> Flat],
@@ -108,15 +121,16 @@ Rich == <<
   [cwd |-> <<Scope>>, S |-> Meta],
   [cwd |-> <<Scope, "sub">>, S |-> Nested],
   [cwd |-> <<Scope, "sub">>, S |-> Links],
-  [cwd |-> <<Scope>>, S |-> {}]
+  [cwd |-> <<Scope>>, S |-> {}],
+  [cwd |-> <<Scope>>, S |-> Prefixes]
 >>
 
 \* the universe from which small and random trees are drawn
 Names2 == {"a", "b", ".a", "*", "["}
 Universe ==
   Flat
-  \cup {Nd(<<d>>, "d") : d \in {"sub", ".b", "*", "a"}}
-  \cup {Nd(<<d, n>>, "f") : d \in {"sub", ".b", "*", "a"}, n \in Names2}
+  \cup {Nd(<<d>>, "d") : d \in {"sub", ".b", "*", "a", "a-"}}
+  \cup {Nd(<<d, n>>, "f") : d \in {"sub", ".b", "*", "a", "a-"}, n \in Names2}
   \cup {Nd(<<"sub", "sub">>, "d"), Nd(<<"sub", "sub", "a">>, "f"), Nd(<<"sub", "sub", ".a">>, "f"),
         Nd(<<"sub", "sub", "*">>, "f")}
   \cup {Ln(<<"ln">>, <<"sub">>), Ln(<<"dl">>, <<"nope">>), Ln(<<"b">>, <<"sub", "sub">>),
